@@ -681,11 +681,11 @@ class System:
         if not del_childs and childs[eidx] != -1:
             pname = self._g[parents[eidx][0]]._params["name"]
             for c in childs[eidx]:
-                refs = [
-                    pname if self._get_index(p) == eidx else p
-                    for p in self._g.attrs["pnames"][c]
-                ]
-                self._g.attrs["pnames"][c] = list(dict.fromkeys(refs))
+                refs = {}
+                for p in self._g.attrs["pnames"][c]:
+                    ref = pname if self._get_index(p) == eidx else p
+                    refs.setdefault(self._get_index(ref), ref)
+                self._g.attrs["pnames"][c] = list(refs.values())
         # delete node
         self._g.remove_node(eidx)
         del [self._g.attrs["nodes"][name]]
@@ -696,7 +696,8 @@ class System:
         if not del_childs:
             if childs[eidx] != -1:
                 for c in childs[eidx]:
-                    self._g.add_edge(parents[eidx][0], c, None)
+                    if not self._g.has_edge(parents[eidx][0], c):
+                        self._g.add_edge(parents[eidx][0], c, None)
 
     def tree(self, name=""):
         """Print the tree structure of the system.
